@@ -1,6 +1,7 @@
 (* Model runner for C13 (POP3 session) and the POP3 wire part of C02.
 
    input   bytes <mem|file> <init> <hexstream>     one raw client byte stream, then EOF
+           net <mem|file> <init> <chunk,chunk..> <eof|idle|err>   scripted connection (pauses, endings)
 
    input   sess <mem|file> <init> <events>
      init    -  |  box;box;...      box = <namehex>:<srchex>.<srchex>...
@@ -278,6 +279,33 @@ let () =
                coq_cases := ("(" ^ (match fl' with Mem -> "Mem" | File -> "File") ^ ", " ^ coq_store st ^ ",\n   " ^
                              coq_list coq_event evs ^ ",\n   " ^ coq_list coq_reply rs ^ ",\n   " ^ coq_dump ds ^ ")") :: !coq_cases
          | _ -> ());
+        Mlutil.print_model model_outs verdict
+    | "net", [fl; init; chunks; fin] ->
+        (* a scripted connection: chunks with pauses between them, three endings; Coq's run_net *)
+        let fl' = if fl = "file" then File else Mem in
+        let st0 = parse_init 0 init in
+        let cs = if chunks = "-" then [] else List.map fstr (String.split_on_char ',' chunks) in
+        let f = (match fin with "idle" -> FIdle | "err" -> FErr | _ -> FEof) in
+        let (w, evs) = run_net fl' st0 cs f in
+        let names = box_names init "-" in
+        let model_outs =
+          List.map field_of_reply w.w_out @
+          List.map (fun nm -> field_of_dump nm (dump_box w.w_store (fstr nm))) names in
+        let verdict =
+          match outs with
+          | "PANIC" :: _ -> "fail:server-panic"
+          | "WEDGED" :: _ | "WEDGED-AT-END" :: _ -> "fail:server-wedged"
+          | _ ->
+              let rfs = List.filter (fun f -> f <> "" && f.[0] <> 'S') outs in
+              let dfs = List.filter (fun f -> f <> "" && f.[0] = 'S') outs in
+              let rs = List.map reply_of_field rfs and ds = List.map dump_of_field dfs in
+              if List.mem None rs then "fail:unparsable-reply"
+              else if List.mem None ds || List.length ds <> List.length names then "fail:unparsable-store-dump"
+              else
+                let rs = List.filter_map (fun x -> x) rs and ds = List.filter_map (fun x -> x) ds in
+                match oracle fl' st0 evs rs ds with
+                | None -> "ok"
+                | Some why -> "fail:" ^ reason_text why in
         Mlutil.print_model model_outs verdict
     | "bytes", [fl; init; stream] ->
         (* one raw client byte stream, then EOF: the model side is Coq's run_stream itself *)
